@@ -66,6 +66,24 @@ def strIncr (s : State) (k : Bytes) (d : Int) : SRes :=
   | some _ => er .keyType s
   | none => ok (.int d) (put s k ⟨.str (itoa d), none⟩)
 
+/-- float increment: "reads the stored text as a number, fails without effect when it is not one,
+and stores the canonical text of the sum"; decided where `valueFloat`/`formatFloatDec` decide -/
+def strIncrFloat (s : State) (k : Bytes) (d : Dyadic) : SRes :=
+  match get s k with
+  | some ⟨.str b, et⟩ =>
+    (match valueFloat b with
+     | .invalid => er .valueType s
+     | .unknown => skip s
+     | .val x =>
+       match formatFloatDec (x + d) with
+       | none => skip s
+       | some txt => ok (.score (.fin (x + d))) (put s k ⟨.str txt, et⟩))
+  | some _ => er .keyType s
+  | none =>
+    (match formatFloatDec d with
+     | none => skip s
+     | some txt => ok (.score (.fin d)) (put s k ⟨.str txt, none⟩))
+
 def strSetMany (s : State) (items : List (Bytes × Bytes)) : SRes :=
   if items.any (fun p => match get s p.1 with
       | some ⟨.str _, _⟩ => false
@@ -323,6 +341,22 @@ def hashIncr (s : State) (k f : Bytes) (d : Int) : SRes :=
   | some _ => er .keyType s
   | none => ok (.int d) (put s k ⟨.hash [(f, itoa d)], none⟩)
 
+def hashIncrFloat (s : State) (k f : Bytes) (d : Dyadic) : SRes :=
+  match get s k with
+  | some ⟨.hash h, et⟩ =>
+    (match valueFloat ((aget h f).getD []) with
+     | .invalid => er .valueType s
+     | .unknown => skip s
+     | .val x =>
+       match formatFloatDec (x + d) with
+       | none => skip s
+       | some txt => ok (.score (.fin (x + d))) (put s k ⟨.hash (aput h f txt), et⟩))
+  | some _ => er .keyType s
+  | none =>
+    (match formatFloatDec d with
+     | none => skip s
+     | some txt => ok (.score (.fin d)) (put s k ⟨.hash [(f, txt)], none⟩))
+
 /-! ### sorted sets (C05) -/
 
 def between (lo hi x : Score) : Bool := Score.le lo x && Score.le x hi
@@ -413,7 +447,7 @@ def step (op : Op) (now : Int) (s : State) : SRes :=
   | .strGet k => strGet s k
   | .strGetMany ks => strGetMany s ks
   | .strIncr k d => strIncr s k d
-  | .strIncrFloat .. => skip s
+  | .strIncrFloat k d => strIncrFloat s k d
   | .strSet k v => strSet s k v none
   | .strSetExpires k v ttl => strSet s k v (if ttl > 0 then some (now + ttl) else none)
   | .strSetMany items => strSetMany s items
@@ -474,7 +508,7 @@ def step (op : Op) (now : Int) (s : State) : SRes :=
   | .hashGet k f => hashGet s k f
   | .hashGetMany k fs => ok (.list (((hashAt s k).filter (fun p => fs.contains p.1)).map pairVal)) s
   | .hashIncr k f d => hashIncr s k f d
-  | .hashIncrFloat .. => skip s
+  | .hashIncrFloat k f d => hashIncrFloat s k f d
   | .hashItems k => ok (.list ((hashAt s k).map pairVal)) s
   | .hashLen k => ok (.int (hashAt s k).length) s
   | .hashScan .. => skip s
